@@ -435,8 +435,10 @@ func transfer(input OmegaInput) (output OmegaOutput) {
 		}
 	}
 	serviceID := input.Addition.ResultContextX.ServiceID
-	if accountS, accountSExists := input.Addition.ResultContextX.PartialState.ServiceAccounts[serviceID]; accountSExists {
-		b := accountS.ServiceInfo.Balance - types.U64(a) // b = (x_s)_b - a
+	accountS, accountSExists := input.Addition.ResultContextX.PartialState.ServiceAccounts[serviceID]
+	var b types.U64
+	if accountSExists {
+		b = accountS.ServiceInfo.Balance - types.U64(a) // b = (x_s)_b - a
 		minBalance := service_account.CalcThresholdBalance(accountS.ServiceInfo.Items, accountS.ServiceInfo.Bytes, accountS.ServiceInfo.DepositOffset)
 		if b < types.U64(minBalance) || accountS.ServiceInfo.Balance < types.U64(a) { //  check b underflow
 			input.VM.Registers[7] = CASH
@@ -445,7 +447,23 @@ func transfer(input OmegaInput) (output OmegaOutput) {
 				Addition:   input.Addition,
 			}
 		}
+	} else {
+		// according GP, no need to check the service exists => it should in ServiceAccountState
+		pvmLogger.Debugf("host-call function \"transfer\" serviceID : %d not in ServiceAccount state", serviceID)
+	}
 
+	// l = reg[9]: the gas limit of the transfer is charged on success; when it cannot be paid the call
+	// is out of gas and nothing may have been recorded
+	if uint64(*input.VM.Gas) < l {
+		*input.VM.Gas = 0
+		return OmegaOutput{
+			ExitReason: ExitOOG,
+			Addition:   input.Addition,
+		}
+	}
+	*input.VM.Gas -= Gas(l)
+
+	if accountSExists {
 		t := types.DeferredTransfer{
 			SenderID:   serviceID,
 			ReceiverID: types.ServiceID(d),
@@ -459,20 +477,8 @@ func transfer(input OmegaInput) (output OmegaOutput) {
 		(*input.Addition.GeneralArgs.ServiceAccountState)[serviceID] = accountS // update general
 		*input.Addition.GeneralArgs.ServiceAccount = accountS
 		input.Addition.ResultContextX.DeferredTransfers = append(input.Addition.ResultContextX.DeferredTransfers, t)
-	} else {
-		// according GP, no need to check the service exists => it should in ServiceAccountState
-		pvmLogger.Debugf("host-call function \"transfer\" serviceID : %d not in ServiceAccount state", serviceID)
 	}
 
-	// l = reg[9]
-	if uint64(*input.VM.Gas) < l {
-		*input.VM.Gas = 0
-		return OmegaOutput{
-			ExitReason: ExitOOG,
-			Addition:   input.Addition,
-		}
-	}
-	*input.VM.Gas -= Gas(l)
 	input.VM.Registers[7] = OK
 	return OmegaOutput{
 		ExitReason: ExitContinue,
